@@ -241,8 +241,8 @@ def _describe_user(item):
 class Driver(object):
     """Plays events on a Rig and keeps the model in step."""
 
-    def __init__(self, role, seed):
-        self.rig = Rig(seed, role=role)
+    def __init__(self, role, seed, rig=None):
+        self.rig = rig if rig is not None else Rig(seed, role=role)
         self.model = Model(role)
         self.role = role
         self.history = []
